@@ -131,8 +131,11 @@ def run(ctx):
     # every live key write takes its time from a stamp call; each stamp call feeds exactly one key
     n = 0
     used = {}
-    for f in m.book_all_fns():
-        q = m.q(f)
+    # (judged on the whole-operation views of the public mutating entry points: the key may be written in a helper shared
+    #  by placement and replacement)
+    op_roots = [f_ for f_ in m.book_pub_fns() if f_.params and f_.params[0] == "self"]
+    for f in op_roots:
+        q = m.ov(f)
         for w in q.writes(field="key", owner="OrderEntry"):
             n += 1
             v = w.val
